@@ -57,6 +57,11 @@ CLAIMED = {
    note="Bounds: taxa<=3 (4), traits<=2, one structural operation; exact reals (float cancellation for large offsets is outside); sqrt by contract; extrema claimed for NaN-free columns.",
    technique="symbolic execution on z3-term arrays (symnp) + z3 (QF_NRA) per-path obligations, replay on real numpy",
    design="2/C15"),
+   "C13": dict(
+   text="Bounded symbolic model checking of the real Molecular/VanRaden/Yang/GeneralizedWeighted coancestry classes (from_gmat, the two factories) and DenseCoancestryMatrix summaries: genotype calls symbolic (molecular) or enumerated by forking (estimators with real parameters), reference frequencies, marker weights and a test vector symbolic; z3 proves cell-wise equality with the independently written published formulas (molecular = twice the mean identity-by-state probability), symmetry, a sum-of-squares certificate for v'Gv (positive semidefiniteness), kinship = half coancestry, label/group metadata of the source, equivariance under permutation and sub-selection of taxa for fixed-reference estimators, max/min/mean/max_inbreeding, and inverse/min_inbreeding against the linear-algebra contract G.B=I.",
+   note="Bounds: taxa<=2 (3), markers<=2 (3), ploidy 1 and 2; Yang only with one marker and two taxa (the square-root scaling times out beyond that); inverse for n<=2 on an arbitrary positive definite matrix (Sylvester assumed); exact reals; LAPACK eigenvalue routines outside.",
+   technique="symbolic execution on z3-term arrays (symnp) + z3 (QF_NIRA/QF_NRA) identities and SOS certificates; contract stub for numpy.linalg.inv; replay on real numpy",
+   design="2/C13"),
 }
 NA = {}
 for pid in props:
